@@ -138,6 +138,7 @@ func plans() []plan {
 	add("stress", 160, 8000)
 	add("outer-bigtree", 36, 400)
 	add("outer-after-early-grant", 120, 4000)
+	add("outer-ctx-ends-at-grant", 60, 2000)
 	return ps
 }
 
@@ -181,6 +182,8 @@ func TestCheck(t *testing.T) {
 			res = mon.Bubble(t, func() { nontrivial = outerBigTree(w, rng) })
 		case "outer-after-early-grant":
 			res = mon.Bubble(t, func() { nontrivial = outerAfterEarlyGrant(w, rng) })
+		case "outer-ctx-ends-at-grant":
+			res = mon.Bubble(t, func() { nontrivial = outerCtxEndsAtGrant(w, rng) })
 		}
 		if w.viol {
 			res.Deadlock = "" // goroutines left behind are the consequence of the reported violation
